@@ -303,6 +303,58 @@ def search(payload):
                 if got != ("ok", rel(set(x), v)):
                     fails.append({"p": f"{name}({v!r})", "returned_object": repr(p_), "x": repr(x), "implementation": repr(got), "reference": repr(rel(set(x), v))})
                     break
+    # math tests and the dict-depth comparisons
+    import math
+    import operator as op2_
+    for x in (0, 1.5, -2, float("inf"), float("-inf"), float("nan"), 1e308, True):
+        for name, ref in (("is_finite_p", math.isfinite), ("is_inf_p", math.isinf), ("is_nan_p", math.isnan)):
+            n += 1
+            if call(getattr(SP, name), x) != ("ok", ref(x)):
+                fails.append({"p": name, "x": repr(x), "implementation": repr(call(getattr(SP, name), x)), "reference": ref(x)})
+
+    def ref_depth(v):           # nesting depth of dict values / list items as documented: a scalar (or empty dict) counts 1, an empty list 0
+        if isinstance(v, list):
+            return 1 + max(ref_depth(i) for i in v) if v else 0
+        if isinstance(v, dict) and v:
+            return 1 + max(ref_depth(i) for i in v.values())
+        return 1
+    dicts = [{}, {"a": 1}, {"a": {"b": 1}}, {"a": {"b": {"c": 1}}, "d": 2}, {"a": [1, {"b": 2}]}, {"a": []}, {"a": {}}, {"x": [[1]], "y": {"z": [2]}}]
+    for d in dicts:
+        for k in range(0, 5):
+            for name, rel in (("depth_eq_p", op2_.eq), ("depth_ne_p", op2_.ne), ("depth_le_p", op2_.le), ("depth_lt_p", op2_.lt),
+                              ("depth_ge_p", op2_.ge), ("depth_gt_p", op2_.gt)):
+                n += 1
+                got = call(getattr(SP, name)(k), d)
+                if got != ("ok", rel(ref_depth(d), k)):
+                    fails.append({"p": f"{name}({k})", "x": repr(d), "implementation": repr(got), "reference": f"depth {ref_depth(d)} {rel.__name__} {k}"})
+    # the ip-address property predicates and subnet/supernet agree with the ipaddress module, name by name
+    import ipaddress
+    from predicate import ip_address_predicates as IPP
+    samples = {
+        "ipv4_address": [ipaddress.IPv4Address(a) for a in ("0.0.0.0", "8.8.8.8", "10.1.2.3", "127.0.0.1", "169.254.1.1", "192.168.0.1", "224.0.0.1", "240.0.0.1", "255.255.255.255", "100.64.0.1")],
+        "ipv6_address": [ipaddress.IPv6Address(a) for a in ("::", "::1", "2001:db8::1", "fe80::1", "fec0::1", "ff02::1", "2607:f8b0::1", "fc00::1", "64:ff9b::1")],
+        "ipv4_network": [ipaddress.IPv4Network(a) for a in ("0.0.0.0/32", "8.8.8.0/24", "10.0.0.0/8", "127.0.0.0/8", "169.254.0.0/16", "192.168.1.0/24", "224.0.0.0/4", "240.0.0.0/4")],
+        "ipv6_network": [ipaddress.IPv6Network(a) for a in ("::/128", "::1/128", "2001:db8::/32", "fe80::/10", "fec0::/10", "ff00::/8", "2607:f8b0::/32", "fc00::/7")],
+    }
+    for name in sorted(dir(IPP)):
+        m = re.fullmatch(r"is_(ipv[46]_(?:address|network))_(\w+)_p", name)
+        if not m:
+            continue
+        for obj in samples[m.group(1)]:
+            n += 1
+            want = getattr(obj, "is_" + m.group(2))
+            got = call(getattr(IPP, name), obj)
+            if got != ("ok", want):
+                fails.append({"p": name, "x": repr(obj), "implementation": repr(got), "reference": f"{obj!r}.is_{m.group(2)} = {want}"})
+                break
+    nets = samples["ipv4_network"] + [ipaddress.IPv4Network("10.1.0.0/16"), ipaddress.IPv4Network("10.1.2.0/24")]
+    for a in nets:
+        for b in nets:
+            n += 2
+            if call(IPP.subnet_of_p(a), b) != ("ok", b.subnet_of(a)) or call(IPP.supernet_of_p(a), b) != ("ok", b.supernet_of(a)):
+                fails.append({"p": f"subnet_of_p/supernet_of_p({a})", "x": repr(b), "implementation": repr((call(IPP.subnet_of_p(a), b), call(IPP.supernet_of_p(a), b))),
+                              "reference": repr((b.subnet_of(a), b.supernet_of(a)))})
+                break
     # str tests agree with the str methods
     from predicate import str_predicates as STR
     for name, meth in (("is_alnum_p", str.isalnum), ("is_alpha_p", str.isalpha), ("is_ascii_p", str.isascii), ("is_decimal_p", str.isdecimal),
